@@ -590,7 +590,7 @@ class Stmts:
                 return ("concrete", [VTuple(list(xs)) for xs in zip(*[v[1] for v in views])])
             raise Unsupported("zip over symbolic sequences")
         if isinstance(it, VStr):
-            if it.py is not None:
+            if it.py is not None or it.units() is not None:
                 return ("concrete", self.concrete_items(it))
             t = it.t
 
@@ -636,7 +636,12 @@ class Stmts:
                     self.ex_block(st.orelse, fr)
                     return
                 if not z3.is_true(c):
-                    raise Unsupported(f"while loop at line {st.lineno} needs an invariant")
+                    if not fr.in_spec:
+                        raise Unsupported(f"while loop at line {st.lineno} needs an invariant")
+                    # spec functions: unroll by forking (bounded by the 256 iterations of this loop)
+                    if not self.path.branch(c):
+                        self.ex_block(st.orelse, fr)
+                        return
                 try:
                     self.ex_block(st.body, fr)
                 except ContinueEx:
